@@ -9,6 +9,7 @@ open BsVerif.Unwind
 #print axioms C05_frame_select_zero
 #print axioms C05_frame_select_counterexample
 #print axioms C05_return_address
+#print axioms C05_frame_select_ip_partial
 #print axioms C05_frame_info_innermost
 #print axioms C05_frame_info_counterexample
 #print axioms ctxNew_cfa
